@@ -252,6 +252,12 @@ class GFA:
             # edges_to_remove.append((n_id, 1, n_end[0], n_end[1], overlap))
             self.remove_edge((n_id, 1, n_end[0], n_end[1], overlap))
 
+        # the contig registry should not refer to the deleted node anymore
+        if "SN" in self.nodes[n_id].tags:
+            contig_nodes = self.contig_to_nodes[self.nodes[n_id].tags["SN"][1]]
+            if n_id in contig_nodes:
+                contig_nodes.remove(n_id)
+
         del self.nodes[n_id]
 
     def remove_edge(self, edge):
